@@ -419,7 +419,14 @@ func c18RandText(r *rand.Rand) string {
 
 func c18ParseValue(text string) (store.Value, error) {
 	var v store.Value
-	err := json.Unmarshal([]byte(text), &v)
+	buf := []byte(text)
+	err := json.Unmarshal(buf, &v)
+	// the input belongs to the caller, who may reuse it once Unmarshal has
+	// returned (json.Unmarshaler: "must copy the JSON data if it wishes to
+	// retain the data"): overwrite it before the value is looked at
+	for i := range buf {
+		buf[i] = '#'
+	}
 	return v, err
 }
 
@@ -579,6 +586,8 @@ func c18Responses(c *core.Ctx, p c18Params) {
 		{"auth", "m", act{Op: "reply", K: "ok", V: "bool"}, want{kind: "result", result: "true"}},
 		{"call", "m", act{Op: "reply", K: "resource", V: "valid"}, want{kind: "resource", rid: "svc.m.created"}},
 		{"call", "m", act{Op: "reply", K: "resource", V: "query"}, want{kind: "resource", rid: "svc.m.created?foo=bar"}},
+		{"call", "m", act{Op: "reply", K: "resource", V: "escapes"}, want{kind: "resource", rid: scriptEscRID}},
+		{"auth", "m", act{Op: "reply", K: "resource", V: "escapes"}, want{kind: "resource", rid: scriptEscRID}},
 		{"call", "m", act{Op: "reply", K: "notfound"}, want{kind: "error", code: "system.notFound"}},
 		{"call", "m", act{Op: "reply", K: "methodnotfound"}, want{kind: "error", code: "system.methodNotFound"}},
 		{"call", "m", act{Op: "reply", K: "invalidparams", V: "bad params"}, want{kind: "error", code: "system.invalidParams"}},
